@@ -97,6 +97,86 @@ def random_rays(rng, n, scales=(1.0,), spread=1.0, target=0.4, centers=None, aim
   return pnt.astype(np.float32), vec.astype(np.float32)
 
 
+def inside_local(rng, kind, size, n):
+  """n points strictly inside a geom of type `kind` (name) with MuJoCo size vector `size`, in the geom frame,
+  spread over the WHOLE interior (capsule: cylindrical section and both cap regions; cylinder/box: up to the
+  faces; ellipsoid/sphere: the full ball).  size may be (3,) or (n,3)."""
+  size = np.broadcast_to(np.asarray(size, dtype=np.float64), (n, 3))
+  u = rng.standard_normal((n, 3))
+  u /= np.linalg.norm(u, axis=1, keepdims=True)
+  ball = u * (rng.random((n, 1)) ** (1 / 3)) * 0.97
+  if kind == "sphere":
+    return ball * size[:, :1]
+  if kind == "ellipsoid":
+    return ball * size
+  if kind == "box":
+    return rng.uniform(-0.97, 0.97, (n, 3)) * size
+  if kind in ("capsule", "cylinder"):
+    r, h = size[:, 0], size[:, 1]
+    a = rng.uniform(0, 2 * np.pi, n)
+    rho = np.sqrt(rng.random(n)) * 0.97 * r
+    p = np.stack([rho * np.cos(a), rho * np.sin(a), rng.uniform(-0.97, 0.97, n) * h], axis=1)
+    if kind == "capsule":
+      k = rng.random(n) < 0.25  # inside one of the cap hemispheres, beyond the flat limit
+      c = ball * r[:, None]
+      c[:, 2] = np.abs(c[:, 2]) * rng.choice([-1.0, 1.0], n)
+      c[:, 2] += np.sign(c[:, 2]) * h
+      p[k] = c[k]
+    return p
+  if kind == "cube":
+    return rng.uniform(-0.09, 0.09, (n, 3))
+  if kind == "octa":
+    return ball * np.array([0.05, 0.04, 0.03])
+  raise KeyError(kind)
+
+
+def exit_dirs(rng, n, axis_frac=0.35):
+  """unit directions in the geom frame: random (leaving through any face) and, for a fraction, along +-x/y/z
+  (leaving through the caps / flat faces head-on)"""
+  v = rng.standard_normal((n, 3))
+  v /= np.linalg.norm(v, axis=1, keepdims=True)
+  k = rng.random(n) < axis_frac
+  e = np.zeros((n, 3))
+  e[np.arange(n), rng.choice([0, 1, 2, 2], n)] = rng.choice([-1.0, 1.0], n)
+  # slightly tilted off the axis as well: leaves through a cap, not head-on
+  t = e + 0.25 * v
+  t /= np.linalg.norm(t, axis=1, keepdims=True)
+  pick = rng.random(n) < 0.5
+  v[k & pick] = e[k & pick]
+  v[k & ~pick] = t[k & ~pick]
+  return v
+
+
+def inside_rays(rng, mjm, mjd, n, scales=(1.0,)):
+  """n rays starting INSIDE geoms of the scene (every castable closed type present: sphere, capsule, cylinder,
+  box, ellipsoid, cube/octa meshes), leaving in random / axis directions.  float32 (pnt, vec); fewer than n
+  (possibly 0) if the scene has no such geom."""
+  names = {2: "sphere", 3: "capsule", 4: "ellipsoid", 5: "cylinder", 6: "box"}
+  cand = []
+  for g in range(mjm.ngeom):
+    t = int(mjm.geom_type[g])
+    if t in names:
+      cand.append((g, names[t]))
+    elif t == 7:
+      import mujoco
+
+      mn = mujoco.mj_id2name(mjm, mujoco.mjtObj.mjOBJ_MESH, int(mjm.geom_dataid[g]))
+      if mn in ("cube", "octa"):
+        cand.append((g, mn))
+  if not cand:
+    return np.zeros((0, 3), np.float32), np.zeros((0, 3), np.float32)
+  pnt, vec = np.zeros((n, 3)), np.zeros((n, 3))
+  dirs = exit_dirs(rng, n)
+  for i in range(n):
+    g, kind = cand[int(rng.integers(0, len(cand)))]
+    lp = inside_local(rng, kind, mjm.geom_size[g], 1)[0]
+    R = mjd.geom_xmat[g].reshape(3, 3)
+    pnt[i] = mjd.geom_xpos[g] + R @ lp
+    vec[i] = R @ dirs[i]
+  vec *= rng.choice(list(scales), (n, 1))
+  return pnt.astype(np.float32), vec.astype(np.float32)
+
+
 def random_cameras(rng, ncam, W, H, ortho=0.0):
   """MJCF cameras looking at the scene: fovy, intrinsic (sensorsize/focal/principal) or orthographic."""
   s = ""
